@@ -14,7 +14,8 @@ CLAIMED = {
              "model holds after every call history by induction.  Values, indices, types are fully symbolic; "
              "shapes are bounded (<=3x3x3 logical, <=4/10/4 allocated) and, for the allocating operations, "
              "enumerated concretely: bounded proof, not an unbounded one.  vnadata_convert in place (N x N -> Zin reshapes the "
-             "object) re-establishes the same invariant, vacated cells included (in-place jobs of C05 re-run here).",
+             "object) re-establishes the same invariant, vacated cells included (in-place jobs of C05 re-run here).  The z0 vector setters "
+             "accept one of the object's own vectors as the source, also across a mode switch that frees it.",
         note="bounded shapes; double complex compiled as double (imaginary part dropped); z0 union compiled as "
              "struct; _vnaerr_verror by contract stub; malloc never fails here (C12); own memcpy/memset/memmove "
              "models because CBMC 6.11's are wrong for symbolic lengths",
@@ -52,6 +53,7 @@ CLAIMED["C16"] = dict(
          "delete_parameter, release, teardown, get_parameter_value of a scalar) returns what the table model "
          "predicts, touches no other slot and re-establishes the invariant; hence for every call history. "
          "A handle solved before keeps exactly the grid and values of the LAST solve (solve_frame jobs of C11 re-run here). "
+         "add_calibration may be given the replaced calibration's own name string. "
          "Bounded in table size (calibrations <= 8 slots + one growth step, parameters <= 8 slots with <= 4-5 live "
          "user handles).",
     note="bounded shapes; CORRELATED parameters and vnacal_new_t hash entries only as ghost external holds; "
@@ -116,7 +118,9 @@ CLAIMED["C05"] = dict(
          "output bitwise-view unchanged with one EINVAL report; frequencies, impedances, z0 mode, precisions and "
          "file type are carried over; the result is a well-formed object, which includes that after conversion to "
          "Zin (in place or not) every cell beyond 1 x ports holds its initial value.  In-place runs have both "
-         "types symbolic over the whole 11x11 table; out-of-place runs enumerate type pairs.",
+         "types symbolic over the whole 11x11 table; out-of-place runs enumerate type pairs.  The other half of the in-place clause - "
+         "each of the 12 Zin functions gives the same result when its output vector lies over its input matrix - is the AL obligation "
+         "of the C04 generator, re-run here (alias_zin).",
     note="bounded shapes (<=3x3, <=2 frequencies); what the vnaconv functions compute is C04; vnadata_set_format "
          "by stub; A->B->C == A->C not checked here; shared C15 assumptions",
     design="DESIGN.md 3 C05, 8.8",
@@ -184,7 +188,7 @@ CLAIMED["C01"] = dict(
          "kernel (T: mldivide, U/E12: mrdivide), the solution stored at the same frequency and cell, singular systems "
          "reported, empty requests read nothing.  "
          "With the assumed kernel contract (solve returns the solution) this gives S = (Ts - M Tx)^-1 (M Tm - Ti) resp. "
-         "S = (Um M + Ui)(Ux M + Us)^-1 in exact arithmetic for those types.",
+         "S = (Um M + Ui)(Ux M + Us)^-1 in exact arithmetic for those types.  A calibration without frequencies refuses every request without reading its empty vector (cal0).",
     note="NOT covered: equation term generation, solve, "
          "fill_e12 (divisions), rfi values between knots, accuracy.  The end-to-end numerical statement of C01 is "
          "out of reach of contract verification with CBMC; a numerical defect that keeps indices intact is invisible",
@@ -201,7 +205,8 @@ CLAIMED["C07"] = dict(
          "vnacal_save.c (add_integer, add_double, add_complex) are verified, for every precision >= 1 and every "
          "double, to write inside their buffers, against a length-exact sprintf contract; controls show the buffers "
          "suffice up to precision 26 / 25.  The unbounded runs expose a genuine stack overflow (recorded as known "
-         "findings, demo under findings/).",
+         "findings, demo under findings/).  Property trees: the exporter writes every map key in the quoted form that the importer's "
+         "descriptor parser maps back to exactly that key (properties.export_keys: real _vnaproperty_yaml_export on a recording document model).",
     note="the LOADING side (libyaml parser events, legacy versions), property trees in the file and bit-exactness of the "
          "digits are outside this technique and NOT decided; libyaml document/emitter functions by a recording model, "
          "sprintf by assumed length / marker contracts, stdio assumed to succeed",
@@ -217,7 +222,8 @@ CLAIMED["C17"] = dict(
          "both the a/b and the m forms: with the body of the common funnel _vnacal_new_add_common removed from the "
          "compiled unit and replaced by a recording contract, the three entry points are proved to hand the funnel "
          "field-for-field identical descriptions (dimensions, matrix pointers, the four S parameters, the port map, "
-         "flags) for all argument values - a complete, loop-free proof.",
+         "flags) for all argument values - a complete, loop-free proof.  Parameters created earlier in the same vnacal_t change nothing: "
+         "a handle >= 8 resolves to the one node created for it after the hash table has grown (param_hash.grow_* of C01 re-run here).",
     note="order of standards, a/b scaling, frequencies together vs apart, E12 vs UE14, port renumbering, full vs "
          "abbreviated matrices are numerical or depend on the funnel's body: NOT covered",
     design="DESIGN.md 3 C17, 8.11",
@@ -233,7 +239,9 @@ CLAIMED["C03"] = dict(
          "parameter tables incl. vnacal_free and teardown, property lists/maps, spline and rfi kernels, and the save "
          "formatters within ordinary precisions, vnacal_new_add_* scenarios (12 entry/shape combinations, 0 frequencies), "
          "_vnacal_new_solve_update_s_matrices with unspecified cells.  Invariant preservation (C15/C16/C13) extends this to every history "
-         "of those operations, within the stated shape bounds.",
+         "of those operations, within the stated shape bounds.  Round 10 added: a standard added after an EMPTY frequency vector, apply on a "
+         "calibration without frequencies, T16/U16 with an m matrix larger than the calibration, add_calibration under the replaced "
+         "calibration's own name string, the V-matrix helpers without V matrices.",
     note="NOT covered: the numeric solvers, save/load bodies, YAML, descriptor parser, floating-point UB, "
          "zero-length memcpy/memset with NULL; see DESIGN 8.12",
     design="DESIGN.md 3 C03, 8.12",
@@ -272,7 +280,8 @@ CLAIMED["C18"] = dict(
          "sqrt by an identity stand-in); (c) _vnacal_new_solve_simple weights every coefficient and right-hand "
          "side of an equation with that equation's own weight (marker weights, recording kernel). Noise vectors on "
          "their own grid pass through the given points: C10.  Without degrees of freedom (exactly determined system) "
-         "the consistency test rejects nothing: the p-value is 1 for any solved terms (pvalue_df0).",
+         "the consistency test rejects nothing: the p-value is 1 for any solved terms (pvalue_df0).  The real _vnacal_new_solve_update_v_matrices "
+         "recomputes, for the system being solved, the V matrix of every standard that has one - also when another column system has none (update_v.*).",
     note="rejection rates, exact-data equivalence, outliers (statistics) are outside contract verification; "
          "solve_auto's use of the weights is not checked; concrete small histories",
     design="DESIGN.md 3 C18, 8.17",
@@ -288,7 +297,8 @@ CLAIMED["C19"] = dict(
          "2x2 and a 3x3 witness matrix (the 3x3 one displaces the scaled row by a swap); row_index is a permutation; for every finite 2x2 matrix with a zero first column or row the "
          "returned determinant is 0 or non-normal, so the call sites' singularity test fires (full double domain); and the "
          "a/b -> m reduction of vnacal_new_add_* (kernel by assumed contract returning ANY determinant) refuses a zero or "
-         "NaN determinant with one MATH/EDOM report and records nothing, else stores the solution of frequency f at f.",
+         "NaN determinant with one MATH/EDOM report and records nothing, else stores the solution of frequency f at f.  "
+         "The UE14 -> E12 conversion divides by every Um entry: with all terms symbolic, an exactly zero one is reported (EDOM) and never divided by (e12_convert.*).",
     note="residual size, QR orthogonality, least-squares minimality, n > 2, 'astronomically large output', and that "
          "the determinant tests of solve_simple/solve_auto: NOT covered (apply: C01 apply_frame); complex compiled as double",
     design="DESIGN.md 3 C19, 8.18",
